@@ -3,6 +3,7 @@ import Dyce.PoolHModel
 import Dyce.HistModel
 import Dyce.OrderStatModel
 import Dyce.PoolCtorModel
+import Dyce.AppearModel
 /-! Line protocol over the executable model (import-free, so it links as a `lean_exe`).
 Every op line is `OPCODE` followed by space-separated integers; lists are length-prefixed. -/
 namespace Dyce.Driver
@@ -181,6 +182,30 @@ def opPMATMUL : P String := do
   if n < 0 then pure "err ValueError" else
   pure (showDice (matmulP leI n.toNat (mkPool leI args)))
 
+/-- `OSTAT hist n pos` : `h.order_stat_for_n_at_pos(n, pos)` (negative `pos` counts from the end) -/
+def opOSTAT : P String := do
+  let h ← hist
+  let n ← nat
+  let pos ← tok
+  let p : Int := if pos < 0 then pos + n else pos
+  if p < 0 ∨ p ≥ n then pure "err out-of-range" else
+  pure (showHistT (orderStat leI h n p.toNat))
+
+/-- `EXK hist outcome n k` : `h.exactly_k_times_in_n(outcome, n, k)` -/
+def opEXK : P String := do
+  let h ← hist
+  let o ← tok
+  let n ← nat
+  let k ← nat
+  pure ("ok " ++ toString (exactlyK h o n k))
+
+/-- `APPEAR dice outcome` : `p.appearances_in_rolls(outcome)` -/
+def opAPPEAR : P String := do
+  let dice ← listOf hist
+  let o ← tok
+  let r := appearances dice o
+  pure (showHistT (r.map fun kc => ((kc.1 : Int), kc.2)))
+
 def dispatch (op : String) : P String :=
   match op with
   | "RWC" => opRWC
@@ -189,6 +214,9 @@ def dispatch (op : String) : P String :=
   | "MAP" => opMAP
   | "UMAP" => opUMAP
   | "MATMUL" => opMATMUL
+  | "OSTAT" => opOSTAT
+  | "EXK" => opEXK
+  | "APPEAR" => opAPPEAR
   | "PMK" => opPMK
   | "PMATMUL" => opPMATMUL
   | _ => pure "bad-op"
